@@ -108,6 +108,18 @@ def plan(tier, seed):
         hs.append(gen_cat("v", t, c, "quick" if k % 4 == (seed + 1) % 4 else "thorough"))
     hs.append(gen_cat("h", "u8", [(RD, (1, 2)), (S, (1, 1))], "thorough"))
     hs.append(gen_cat("v", "u8", [(RD, (1, 2)), (RD, (1, 2))], "thorough"))
+    hs.append(gen_cat("h", t, [(VD, (2, 1)), (VD, (2, 1)), (VD, (2, 1)), (VD, (2, 1))], "thorough"))
+    # Measured: every case with a matrix block next to another block runs out of 9 GB in the propositional reduction or gets no
+    # verdict in 900 s (the concatenation structs keep their blocks as Vec<(Box<dyn CopyMat<T>>, usize)>).  Scalar-only rows and
+    # columns and the single-block case are decided.
+    for h in hs:
+        nblocks = h.key.split("/")[2].count("x")
+        scalar_only = all(part.startswith("s") for part in h.key.split("/")[2].split("_"))
+        if not (scalar_only or nblocks == 1):
+            h.tier = "off"
+            h.off_reason = "matrix blocks next to other blocks (Vec<(Box<dyn CopyMat<T>>, usize)> kernels): out of 9 GB / no verdict in 900 s"
+        elif h.tier != "quick":
+            h.tier = "quick"
     pre, extracted = {}, {}
     for where, fx, rel in ((WH, "impl_horzcat_fxn", "src/interpreter/src/stdlib/horzcat.rs"), (WV, "impl_vertcat_fxn", "src/interpreter/src/stdlib/vertcat.rs")):
         t_, h_ = extract_dispatch_fn(read_repo(rel), fx, rel)
@@ -120,8 +132,9 @@ def plan(tier, seed):
         "extracted": extracted,
         "explanation": "Kani/CBMC over impl_horzcat_fxn / impl_vertcat_fxn (pattern tables + allocation) and the concatenation structs with their "
                        "CopyMat kernels, blocks symbolic, shapes concrete",
-        "bounds": "1-3 blocks per call, results up to 3x3, element kind f64 (u8 for two cases)",
-        "outside": ["the rejection of blocks whose heights/widths disagree or whose kinds differ: those checks live in matrix()/matrix_row() "
+        "bounds": "rows and columns of 2-3 scalar blocks, and a single 1x3 / 2x2 block; element kind f64",
+        "outside": ["every concatenation in which a vector or matrix block stands next to another block (no verdict: see excluded_no_verdict) - the "
+                    "element placement of multi-block matrices is therefore NOT decided by this check", "the rejection of blocks whose heights/widths disagree or whose kinds differ: those checks live in matrix()/matrix_row() "
                     "(src/interpreter/src/structures.rs), which evaluate syntax nodes with an Interpreter", "more than 3 blocks",
                     "empty / optional elements", "fixed-size storage forms"],
         "caps": {"quick_timeout": 900, "thorough_timeout": 2400, "heavy_jobs": 6, "heavy_rss_gb": 9},
